@@ -118,8 +118,10 @@ def execute(schedule) -> Result:
     mats = {k: (np.array([[xf(v) for v in row] for row in m], dtype=float) if m else np.zeros((0, 1))) for k, m in schedule["matrices"].items()}
     sid = {"Start": StateId.Start, "Symbolic_Model": StateId.Symbolic_Model, "Fit_Model": StateId.Fit_Model}
     pool = [(ui.DesignManager(name="fsim"), ["Start"], None)]  # (object, reference path, grid)
-    seam = MinimizeSeam(python.minimize)
-    python.minimize = seam
+    seam = MinimizeSeam(getattr(python, "minimize", None) or __import__("scipy.optimize", fromlist=["minimize"]).minimize)
+    had_name = hasattr(python, "minimize")
+    if had_name:
+        python.minimize = seam
 
     def check_all(i):
         for j, (obj, path, _g) in enumerate(pool):
@@ -247,7 +249,8 @@ def execute(schedule) -> Result:
             res.ops += 1
             res.log.append(f"{i} {kind} pool={[p[1][-1] for p in pool]}")
     finally:
-        python.minimize = seam.real
+        if had_name:
+            python.minimize = seam.real
     res.stats["probe:pool_states=" + ",".join(sorted({p[1][-1] for p in pool}))] += 1
     return res
 
